@@ -187,6 +187,13 @@ class Gen:
                     kids.append(self.comment()); self.budget -= 1
                 else:
                     kids.append(self.pi()); self.budget -= 1
+        merged = []
+        for k in kids:       # adjacent character data is one child in the abstract document
+            if k[0] == 't' and merged and merged[-1][0] == 't':
+                merged[-1] = ('t', merged[-1][1] + k[1])
+            else:
+                merged.append(k)
+        kids = merged
         if not kids:
             self.feat('empty-element')
         return ('e', name, atts, kids)
